@@ -384,11 +384,11 @@ Proof.
 Qed.
 
 (* pd.Index / integer pd.Series keys use .loc: on the 0..n-1 index that IS the positional selection *)
-Theorem iset_get_labels_eq_pos {T} (o : tiset T) ks :
-  wf_tiset o -> Forall (fun k => 0 <= k) ks -> iset_get_labels o ks = iset_get_pos o (map Z.to_nat ks).
+Theorem iset_get_labels_orig_eq_pos {T} (o : tiset T) ks :
+  wf_tiset o -> Forall (fun k => 0 <= k) ks -> iset_get_labels_orig o ks = iset_get_pos o (map Z.to_nat ks).
 Proof.
   intros Hwf Hk. pose proof (wf_tiset_length _ Hwf) as Hlen. destruct Hwf as [Hc Hl].
-  unfold iset_get_labels, iset_get_pos.
+  unfold iset_get_labels_orig, iset_get_pos.
   replace (forallb (fun k => 0 <=? k) ks) with true
     by (symmetry; apply forallb_forall; intros k Hin; rewrite Forall_forall in Hk; specialize (Hk _ Hin); lia).
   destruct (sel (fst o) (map Z.to_nat ks)) as [iv|]; [|reflexivity].
@@ -431,14 +431,14 @@ Proof.
   inversion IH. destruct b; simpl; rewrite H1; reflexivity.
 Qed.
 
-Theorem iset_get_bseries_aligned {T} (o : tiset T) mask :
+Theorem iset_get_bseries_orig_aligned {T} (o : tiset T) mask :
   wf_tiset o -> map fst mask = rangeZ (length (fst o)) ->
-  iset_get_bseries o mask = iset_get_pos o (mask_pos (map snd mask)).
+  iset_get_bseries_orig o mask = iset_get_pos o (mask_pos (map snd mask)).
 Proof.
   intros Hwf Hmask. pose proof (wf_tiset_length _ Hwf) as Hlen. destruct Hwf as [Hc Hl].
   assert (Hml : length mask = length (fst o)).
   { apply (f_equal (@length Z)) in Hmask. rewrite map_length, rangeZ_length in Hmask. exact Hmask. }
-  unfold iset_get_bseries, iset_get_pos. rewrite Hml, Nat.eqb_refl.
+  unfold iset_get_bseries_orig, iset_get_pos. rewrite Hml, Nat.eqb_refl.
   destruct (sel (fst o) (mask_pos (map snd mask))) as [iv|]; [|reflexivity].
   assert (Hm : snd o = range_frame (rows (snd o))) by (apply frame_is_range; rewrite Hl, Hlen; reflexivity).
   assert (Hmk : mask = range_frame (map snd mask)).
@@ -458,16 +458,66 @@ Qed.
 
 (* ... but a mask whose index is in another order (a condition on sorted metadata) is applied by
    position to the intervals and by label to the metadata: the faithful model attaches a wrong tag *)
-Theorem iset_get_bseries_refuted :
+Theorem iset_get_bseries_orig_refuted :
   exists (o : tiset Z) mask out m,
     wf_tiset o /\ Permutation (map fst mask) (rangeZ (length (fst o)))
-    /\ iset_get_bseries o mask = Kept out m
+    /\ iset_get_bseries_orig o mask = Kept out m
     /\ exists s e t p, nth_error out 0 = Some (s, e) /\ loc1 m 0 = Some t
                        /\ nth_error (fst o) p = Some (s, e) /\ nth_error (rows (snd o)) p <> Some t.
 Proof.
   exists ([(0, 10); (20, 30)], range_frame [100; 200]), [(1, true); (0, false)], [(0, 10)], [(0, 200)].
   split; [split; [simpl; lia|reflexivity]|]. split; [apply perm_swap|]. split; [vm_compute; reflexivity|].
   exists 0, 10, 200, 0%nat. repeat split; try reflexivity. simpl. intros H. discriminate H.
+Qed.
+
+(* ---- the two pandas-key forms as repaired: positional for intervals AND rows ---- *)
+Theorem iset_get_labels_pointwise {T} (o : tiset T) ks out m :
+  iset_get_labels o ks = Kept out m ->
+  exists ps, wrap_all (length (fst o)) ks = Some ps /\
+  forall i s e', nth_error out i = Some (s, e') ->
+    exists p e t, nth_error ps i = Some p /\ nth_error (fst o) p = Some (s, e) /\ (e' = e \/ e' = e - us)
+                  /\ nth_error (rows (snd o)) p = Some t /\ loc1 m (Z.of_nat i) = Some t.
+Proof.
+  unfold iset_get_labels. destruct (wrap_all (length (fst o)) ks) as [ps|]; [|discriminate].
+  intros H. exists ps. split; [reflexivity|]. exact (iset_get_pos_pointwise _ _ _ _ H).
+Qed.
+
+Lemma inc_from_weaken ps : forall k k', (k' <= k)%nat -> inc_from k ps -> inc_from k' ps.
+Proof. destruct ps as [|p r]; simpl; [auto|]. intros k k' H [H1 H2]. split; [lia|exact H2]. Qed.
+
+Lemma filter_idx_inc {A} (f : A -> bool) l : forall i, inc_from i (filter_idx f i l).
+Proof.
+  induction l as [|x r IH]; intros i; simpl; [exact I|].
+  destruct (f x); simpl.
+  - split; [lia|apply IH].
+  - eapply inc_from_weaken; [|apply IH]. lia.
+Qed.
+
+(* boolean pd.Series with ANY index order: exactly the intervals at the True positions, each with
+   the row it had; nothing trimmed, nothing dropped *)
+Theorem iset_get_bseries_total {T} (o : tiset T) mask :
+  wf_tiset o -> length mask = length (fst o) ->
+  iset_get_bseries o mask
+  = Kept (map snd (filter fst (combine (map snd mask) (fst o))))
+         (range_frame (map snd (filter fst (combine (map snd mask) (rows (snd o)))))).
+Proof.
+  intros Hwf Hl. pose proof (wf_tiset_length _ Hwf) as Hlen.
+  unfold iset_get_bseries. rewrite Hl, Nat.eqb_refl.
+  set (bits := map snd mask).
+  assert (Hb1 : length bits = length (fst o)) by (unfold bits; rewrite map_length; exact Hl).
+  assert (Hb2 : length bits = length (rows (snd o))) by (unfold rows; rewrite map_length; lia).
+  pose proof (sel_filter_idx (fst o) [] bits Hb1) as S1. simpl in S1. fold (mask_pos bits) in S1.
+  pose proof (sel_filter_idx (rows (snd o)) [] bits Hb2) as S2. simpl in S2. fold (mask_pos bits) in S2.
+  destruct (iset_get_pos_increasing o (mask_pos bits) _ Hwf (filter_idx_inc _ bits 0%nat) S1) as (tags & Ht & Hres).
+  rewrite Hres. rewrite S2 in Ht. inversion Ht. reflexivity.
+Qed.
+
+Theorem iset_get_bseries_index_irrelevant {T} (o : tiset T) mask mask' :
+  map snd mask = map snd mask' -> iset_get_bseries o mask = iset_get_bseries o mask'.
+Proof.
+  intros H. unfold iset_get_bseries. rewrite <- H.
+  replace (length mask') with (length mask); [reflexivity|].
+  rewrite <- (map_length snd mask), H, map_length. reflexivity.
 Qed.
 
 (* ================================================================== *)
